@@ -1,5 +1,6 @@
 import VivModel.Model.Proto
 import VivModel.Model.Stream
+import VivModel.Model.RandomBlock
 /-! Line-protocol driver for the randomness-stream model, draw addressing only (C02). The C05 driver is a
 superset (adds filter / choice) with the same conventions.
 
@@ -10,8 +11,17 @@ are DATA handed in by the harness (`pos`, `block`); everything else is computed 
   stream xDP                                         → ok | err duplicate
   draw  xKEY xTIME xAK xSEED req                     → ok s:p:n,… | err lookup
   idraw xKEY xTIME xAK xSEED req                     → same for an initializes_crn_attributes stream
-A seed string without a registered block → `err noblock` (never a default block). -/
-open Viv Viv.Proto Viv.Stream
+A seed string without a registered block → `err noblock` (never a default block).
+
+Bit-level mode (`Model/Sha1.lean`, `Model/MT19937.lean`, `Model/RandomBlock.lean`): after `rng 1` no blocks are
+handed over – `draw` / `idraw` compute `RandomState(get_hash(seed string)).random_sample(size)` themselves
+(once per seed string, `memoBlk`; `Props/C02Bits.lean::getDraw_memo`).
+  rng 0/1                                            → ok
+  hash xKEY | hashu cp,cp,…  (unicode scalar values) → ok <get_hash> | err encode (not a scalar value)
+  sha xKEY  | shau cp,cp,…                           → ok <40 hex digits of sha1(key.encode("utf8"))>
+  mt seed n                                          → ok <n numerators over 2^53 of random_sample(n)> | err seed
+  mtw seed n                                         → ok <first n 32-bit outputs> | err seed   (seed ≥ 2^32: ValueError) -/
+open Viv Viv.Proto Viv.Stream Viv.RandomBlock
 
 structure St where
   size : Nat := 0
@@ -19,6 +29,8 @@ structure St where
   map : List (Sim × Nat) := []
   blocks : List (String × List Nat) := []
   streams : List String := []
+  rng : Bool := false
+  own : List (String × Array Nat) := []       -- blocks the model computed itself (rng mode), per seed string
 
 def hexVal (c : Char) : Option Nat :=
   if '0' ≤ c ∧ c ≤ '9' then some (c.toNat - '0'.toNat)
@@ -53,12 +65,35 @@ def St.blk (s : St) : String → Nat → Nat → Nat := fun ks _ p =>
 
 def showDraws (ds : List Draw) : String := showStrs (ds.map fun d => s!"{d.1}:{d.2.1}:{d.2.2}")
 
-def withKey (s : St) (k t a sd : String) (f : String → String) : String :=
+/-- the block function for seed string `ks`: the registered data, or (rng mode) the model's own block,
+computed on first use -/
+def St.blockFor (s : St) (ks : String) : St × Option (String → Nat → Nat → Nat) :=
+  if s.rng then
+    match s.own.lookup ks with
+    | some b => if b.size = s.size then (s, some (memoBlk b)) else
+        let b := blockOf ks s.size
+        ({ s with own := (ks, b) :: s.own }, some (memoBlk b))
+    | none =>
+      let b := blockOf ks s.size
+      ({ s with own := (ks, b) :: s.own }, some (memoBlk b))
+  else if (s.blocks.lookup ks).isNone then (s, none) else (s, some s.blk)
+
+def withKey (s : St) (k t a sd : String) (f : (String → Nat → Nat → Nat) → String → String) : St × String :=
   match unhex k, unhex t, unhex a, unhex sd with
   | some k, some t, some a, some sd =>
     let ks := joinKey k t a sd
-    if (s.blocks.lookup ks).isNone then "err noblock" else f ks
-  | _, _, _, _ => "bad-op"
+    match s.blockFor ks with
+    | (s, none) => (s, "err noblock")
+    | (s, some blk) => (s, f blk ks)
+  | _, _, _, _ => (s, "bad-op")
+
+/-- a string from unicode scalar values (`hashu`): anything else cannot be encoded (`UnicodeEncodeError`) -/
+def ofScalars (cps : List Nat) : Option String :=
+  if cps.all Nat.isValidChar then some (String.ofList (cps.map Char.ofNat)) else none
+
+def keyArg (op tok : String) : Option (Option String) :=
+  if op = "hash" ∨ op = "sha" then (unhex tok).map some
+  else (natList tok).map ofScalars
 
 def step (s : St) : List String → St × String
   | ["size", n] =>
@@ -88,17 +123,38 @@ def step (s : St) : List String → St × String
   | ["draw", k, t, a, sd, req] =>
     match natList req with
     | none => (s, "bad-op")
-    | some req => (s, withKey s k t a sd fun ks =>
-        match getDraw s.blk s.size s.pos ks req with
+    | some req => withKey s k t a sd fun blk ks =>
+        match getDraw blk s.size s.pos ks req with
         | .ok ds => if ds.all (fun d => decide (d.2.1 < s.size)) then s!"ok {showDraws ds}" else "err range"
-        | .error e => s!"err {errName e}")
+        | .error e => s!"err {errName e}"
   | ["idraw", k, t, a, sd, req] =>
     match natList req with
     | none => (s, "bad-op")
-    | some req => (s, withKey s k t a sd fun ks =>
-        match getDrawInit s.blk s.size ks req with
+    | some req => withKey s k t a sd fun blk ks =>
+        match getDrawInit blk s.size ks req with
         | .ok ds => s!"ok {showDraws ds}"
-        | .error e => s!"err {errName e}")
+        | .error e => s!"err {errName e}"
+  | ["rng", b] =>
+    match bool? b with
+    | some b => ({ s with rng := b }, "ok")
+    | none => (s, "bad-op")
+  | [op, tok] =>
+    if op = "hash" ∨ op = "hashu" ∨ op = "sha" ∨ op = "shau" then
+      match keyArg op tok with
+      | none => (s, "bad-op")
+      | some none => (s, "err encode")
+      | some (some key) =>
+        if op = "hash" ∨ op = "hashu" then (s, s!"ok {Sha1.getHash key}") else (s, s!"ok {Sha1.hexdigest key}")
+    else (s, "bad-op")
+  | [op, sd, n] =>
+    if op = "mt" ∨ op = "mtw" then
+      match sd.toNat?, n.toNat? with
+      | some sd, some n =>
+        if sd ≥ 4294967296 then (s, "err seed")
+        else if op = "mt" then (s, s!"ok {showNats (MT19937.block sd n).toList}")
+        else (s, s!"ok {showNats (MT19937.outputs n (MT19937.seed sd))}")
+      | _, _ => (s, "bad-op")
+    else (s, "bad-op")
   | _ => (s, "bad-op")
 
 def main : IO Unit := Proto.run ({} : St) step
